@@ -1,11 +1,15 @@
-STUN_MODELS = ['stun_pre.c', 'qt_core.c', 'qt_list.c', 'bytes_models.c', 'stun_models.c']
+STUN_MODELS = ['stun_pre.c', 'qt_core.c', 'qt_list.c', 'bytes_models.c', 'stun_models.c', 'ice_models.c']
+def S(name, entry, cfg=(0, 0, 0, 0), cap=100, **kw):
+    d = dict(name=name, entry=entry, unwind=24, timeout_s=300, mem_gb=6, model_loop_bound=cap + 4,
+             cdefs={'QB_CAP': cap, 'VP_CFG0': cfg[0], 'VP_CFG1': cfg[1], 'VP_CFG2': cfg[2], 'VP_CFG3': cfg[3]})
+    d['cdefs'].update(kw.pop('cdefs', {})); d.update(kw); return d
 SPEC = dict(
     property='C14',
     groups=[
-        dict(name='probe', harness='h_stun.cpp', tus=[], models=STUN_MODELS, cand='vp_buf_seek:i1(p,i64)',
-             loop_bounds={'_ZN16QXmppStunMessage6decodeE': 2},
-             instances=[dict(name='probe', entry='h_probe', unwind=18, timeout_s=300, mem_gb=8, cdefs={'QB_CAP': 64, 'VP_CFG0': 24, 'VP_UTF8_LATIN1': 1}, model_loop_bound=70),
-                        dict(name='probe2', entry='h_probe2', unwind=18, timeout_s=300, mem_gb=8, cdefs={'QB_CAP': 100, 'VP_CFG1': 2, 'VP_CFG2': 1}, model_loop_bound=104, loop_bounds={'_ZN16QXmppStunMessage6decodeE': 6})]),
+        dict(name='stun', harness='h_stun.cpp', tus=[], models=STUN_MODELS, cand='vp_buf_seek:i1(p,i64);vp_fake_localCandidate:void(p,p,i32)',
+             loop_bounds={'_ZN16QXmppStunMessage6decodeE': 8},
+             instances=[S('rt_ints', 'h_rt', (1, 2, 1, 1)), S('prio_cand', 'h_prio_cand'), S('prio_pair', 'h_prio_pair'),
+                        S('dec_mi', 'h_dec_mi', (1, 2, 0, 0), loop_bounds={'_ZN16QXmppStunMessage6decodeE': 3})]),
     ],
     bounds=[], assumptions=[], outside=[],
 )
